@@ -255,6 +255,8 @@ struct MemOp {
     rip_rel: bool,
     disp_off: usize,
     seg: u8,
+    /// 32-bit mode: absolute disp32 encoded as mod=00 rm=101 (rip-relative in 64-bit mode)
+    abs_modrm: bool,
 }
 
 #[derive(Clone, Debug)]
@@ -344,6 +346,7 @@ fn assemble(rng: &mut Rng, form: &Form, mode64: bool) -> Option<Enc> {
                             // absolute: filled in by the solver (address inside the arena)
                             m.rip_rel = false;
                             m.base = Option::None;
+                            m.abs_modrm = true;
                         }
                     } else {
                         tail.push(modb << 6 | ((regfield & 7) as u8) << 3 | rmlow);
@@ -557,6 +560,116 @@ fn state_json(e: &Enc, st: &X86State) -> Value {
     })
 }
 
+/// 32-bit mode semantics of the stack-width and indirect-transfer instructions (SDM vol. 2), for which the
+/// 64-bit host has no equivalent encoding. Returns None for states the model does not cover.
+fn model32(e: &Enc, st0: &X86State) -> Option<StepResult> {
+    let mut st = st0.clone();
+    let m32 = |x: u64| x & 0xffff_ffff;
+    let rd = |st: &X86State, a: u64| -> Option<u32> {
+        let a = m32(a);
+        if a < ARENA_ADDR || a + 4 > ARENA_ADDR + ARENA_SIZE as u64 {
+            return Option::None;
+        }
+        let o = (a - ARENA_ADDR) as usize;
+        Some(u32::from_le_bytes(st.arena[o..o + 4].try_into().unwrap()))
+    };
+    let wr = |st: &mut X86State, a: u64, v: u32| -> Option<()> {
+        let a = m32(a);
+        if a < ARENA_ADDR || a + 4 > ARENA_ADDR + ARENA_SIZE as u64 {
+            return Option::None;
+        }
+        let o = (a - ARENA_ADDR) as usize;
+        st.arena[o..o + 4].copy_from_slice(&v.to_le_bytes());
+        Some(())
+    };
+    // effective address of the memory operand from the registers of `st`
+    let ea = |st: &X86State, m: &MemOp| -> u64 {
+        let seg = match m.seg {
+            0x64 => st.fs_base,
+            0x65 => st.gs_base,
+            _ => 0,
+        };
+        let b = m.base.map(|b| st.gpr[b]).unwrap_or(0);
+        let i = m.index.map(|i| st.gpr[i].wrapping_mul(m.scale)).unwrap_or(0);
+        m32(m32(b.wrapping_add(i).wrapping_add(m.disp as u64)).wrapping_add(seg))
+    };
+    if e.opsize != 32 || e.rep != 0 {
+        return Option::None;
+    }
+    let next = m32(CODE_ADDR + e.bytes.len() as u64);
+    let esp = m32(st.gpr[4]);
+    let rm_value = |st: &X86State| -> Option<u32> {
+        match (&e.mem, e.rm_reg) {
+            (Some(m), _) => rd(st, ea(st, m)),
+            (Option::None, Some(r)) => Some(st.gpr[r] as u32),
+            _ => Option::None,
+        }
+    };
+    st.rip = next;
+    match e.form.name {
+        "push_r" => {
+            let v = st.gpr[e.reg] as u32;
+            st.gpr[4] = m32(esp.wrapping_sub(4));
+            wr(&mut st, esp.wrapping_sub(4), v)?;
+        }
+        "push_iz" | "push_i8" => {
+            st.gpr[4] = m32(esp.wrapping_sub(4));
+            wr(&mut st, esp.wrapping_sub(4), e.imm as u32)?;
+        }
+        "push_rm" => {
+            let v = rm_value(&st)?;
+            st.gpr[4] = m32(esp.wrapping_sub(4));
+            wr(&mut st, esp.wrapping_sub(4), v)?;
+        }
+        "pop_r" => {
+            let v = rd(&st, esp)?;
+            st.gpr[4] = m32(esp.wrapping_add(4));
+            st.gpr[e.reg] = v as u64;
+        }
+        "pop_rm" => {
+            let v = rd(&st, esp)?;
+            st.gpr[4] = m32(esp.wrapping_add(4));
+            match (&e.mem, e.rm_reg) {
+                // the address of a memory destination is computed after esp has been incremented
+                (Some(m), _) => {
+                    let a = ea(&st, m);
+                    wr(&mut st, a, v)?;
+                }
+                (Option::None, Some(r)) => st.gpr[r] = v as u64,
+                _ => return Option::None,
+            }
+        }
+        "call_rel32" => {
+            st.gpr[4] = m32(esp.wrapping_sub(4));
+            wr(&mut st, esp.wrapping_sub(4), next as u32)?;
+            st.rip = m32(next.wrapping_add(e.imm as u64));
+        }
+        "call_rm" => {
+            let t = rm_value(&st)?;
+            st.gpr[4] = m32(esp.wrapping_sub(4));
+            wr(&mut st, esp.wrapping_sub(4), next as u32)?;
+            st.rip = t as u64;
+        }
+        "jmp_rm" => {
+            st.rip = rm_value(&st)? as u64;
+        }
+        "ret" | "ret_i16" => {
+            let t = rd(&st, esp)?;
+            let extra = if e.form.name == "ret_i16" { (e.imm as u64) & 0xffff } else { 0 };
+            st.gpr[4] = m32(esp.wrapping_add(4).wrapping_add(extra));
+            st.rip = t as u64;
+        }
+        "leave" => {
+            let ebp = m32(st.gpr[5]);
+            let v = rd(&st, ebp)?;
+            st.gpr[4] = m32(ebp.wrapping_add(4));
+            st.gpr[5] = v as u64;
+        }
+        _ => return Option::None,
+    }
+    Some(StepResult::Ok(st))
+}
+
 impl C01 {
     fn solve(&self, rng: &mut Rng, e: &mut Enc) -> Option<X86State> {
         let mut st = X86State::zeroed();
@@ -681,11 +794,25 @@ impl C01 {
         // ---- native execution. In 32-bit mode the same bytes are executed in 64-bit mode with an address-size
         // prefix where a memory operand is present (mode-equivalence map); stack-width instructions have no equivalent.
         let mut native_bytes = e.bytes.clone();
+        let mut modelled: Option<StepResult> = Option::None;
         if !mode64 {
             if matches!(e.form.sp, S::Stack | S::Leave) || matches!(e.form.name, "jmp_rm" | "call_rm") {
-                ctx.count("x86.no_native_equivalent(skipped)");
-                return;
+                // no 64-bit encoding behaves like these with 4-byte stack slots: judged against the hand model
+                match model32(&e, &st0) {
+                    Some(m) => {
+                        ctx.count("x86.hand_model_cases");
+                        modelled = Some(m);
+                    }
+                    Option::None => {
+                        ctx.count("x86.no_native_equivalent(skipped)");
+                        return;
+                    }
+                }
             }
+        }
+        if modelled.is_some() {
+            // nothing to prepare
+        } else if !mode64 {
             if e.form.sp == S::Short32 {
                 // 40+r / 48+r are REX prefixes in 64-bit mode: use FF /0, FF /1
                 let r = (e.bytes[e.bytes.len() - 1] & 7) as u8;
@@ -694,10 +821,15 @@ impl C01 {
                 nb.extend_from_slice(&[0xff, 0xc0 | (dec as u8) << 3 | r]);
                 native_bytes = nb;
             } else if e.mem.is_some() || e.form.sp == S::Str || matches!(e.form.name, "loop" | "loope" | "loopne" | "jrcxz") {
-                if e.mem.as_ref().map(|m| m.base.is_none() && m.index.is_none()).unwrap_or(false) {
-                    // absolute disp32 is rip-relative in 64-bit mode: use the SIB no-base form
-                    ctx.count("x86.absolute_disp32(skipped)");
-                    return;
+                if let Some(m) = e.mem.as_ref().filter(|m| m.base.is_none() && m.index.is_none()) {
+                    // mod=00 rm=101 is absolute here but rip-relative in 64-bit mode: the native run uses the
+                    // SIB form without base and index, which is absolute in both modes
+                    let mo = m.disp_off - 1;
+                    if m.abs_modrm && native_bytes[mo] & 0xc7 == 0x05 {
+                        native_bytes[mo] = (native_bytes[mo] & 0x38) | 0x04;
+                        native_bytes.insert(mo + 1, 0x25);
+                        ctx.count("x86.absolute_disp32_via_sib");
+                    }
                 }
                 native_bytes.insert(0, 0x67);
             }
@@ -709,7 +841,11 @@ impl C01 {
                 return;
             }
         };
-        let res = match native.step(&native_bytes, &st0) {
+        let res = match modelled {
+            Some(m) => Ok(m),
+            Option::None => native.step(&native_bytes, &st0),
+        };
+        let res = match res {
             Ok(r) => r,
             Err(err) => {
                 ctx.count("native.refused");
